@@ -407,7 +407,7 @@ KEY_POOLS = {
              ('t', (2000, 1, 2, 840)), ('t', (2000, 1, 1, -600)), ('t', (1999, 12, 31, None)),
              ('t', (2000, 1, 2, None))],
 }
-# pairs that hit the year-first comparison of dates (F15f) and boolean-as-integer (F15d) go to
+# pairs that hit the year-in-the-hash behaviour of dates (F15f) and boolean-as-integer (F15d) go to
 # their own pools, drawn rarely
 CLASH_DATES = [('t', (2000, 12, 31, -720)), ('t', (2001, 1, 1, 720))]
 
